@@ -210,6 +210,21 @@ func runRoundtrip(c rtCase) (pbt.Result, error) {
 	if !bytes.HasPrefix(u, pre) || !bytes.Equal(u[len(pre):], x) {
 		return res, pbt.Fail("roundtrip/unpack-mismatch", "Unpack(Pack(x)) != x\nx=%x\npacked=%x\ngot=%x", x, p, u)
 	}
+	// a reused destination buffer: spare capacity full of old bytes, of every size relation to the output
+	for _, spare := range []int{8, len(x) / 2, len(x), len(x) + 64} {
+		buf := bytes.Repeat([]byte{0xa5}, len(pre)+spare)
+		copy(buf, pre)
+		u2, err := packed.Unpack(buf[:len(pre)], p)
+		if err != nil || !bytes.HasPrefix(u2, pre) || !bytes.Equal(u2[len(pre):], x) {
+			return res, pbt.Fail("roundtrip/unpack-into-dirty-buffer", "Unpack(dst, Pack(x)) with %d bytes of non-zero spare capacity in dst: err=%v\nx=%x\npacked=%x\ngot=%x", spare, err, x, p, u2[minInt(len(pre), len(u2)):])
+		}
+		buf = bytes.Repeat([]byte{0xa5}, len(pre)+spare)
+		copy(buf, pre)
+		p2 := packed.Pack(buf[:len(pre)], x)
+		if !bytes.HasPrefix(p2, pre) || !bytes.Equal(p2[len(pre):], p) {
+			return res, pbt.Fail("roundtrip/pack-into-dirty-buffer", "Pack(dst, x) with %d bytes of non-zero spare capacity in dst differs from Pack(nil, x)\nx=%x", spare, x)
+		}
+	}
 	// independent decoder reads our output
 	ru, err := ref.Unpack(p)
 	if err != nil {
@@ -238,7 +253,7 @@ func runRoundtrip(c rtCase) (pbt.Result, error) {
 
 var _ = pbt.Register(pbt.Spec[rtCase]{
 	Property: "C13", Name: "roundtrip",
-	Rule:     "payload = 0-6 runs of zero/dense/1-zero/2-zero/sparse words, run lengths geometric or from {0,1,2,3,253..257,509..512}; reader chunking and Read sizes drawn; oracle: Unpack(Pack(x))=x, Reader/ReadWord(Pack(x))=x then io.EOF, independent ref.Unpack(Pack(x))=x. Non-trivial: a zero run or a literal-eligible run of >=255 words; distinct by hash of the case.",
+	Rule:     "payload = 0-6 runs of zero/dense/1-zero/2-zero/sparse words, run lengths geometric or from {0,1,2,3,253..257,509..512}; reader chunking and Read sizes drawn; oracle: Unpack(Pack(x))=x, also when appending to a dst prefix and into reused buffers whose spare capacity holds old non-zero bytes (four sizes), Reader/ReadWord(Pack(x))=x then io.EOF, independent ref.Unpack(Pack(x))=x. Non-trivial: a zero run or a literal-eligible run of >=255 words; distinct by hash of the case.",
 	Quick:    6000, Thorough: 60000,
 	Gen: func(t *rapid.T) rtCase {
 		c := rtCase{Payload: genPayload(t), Chunk: genChunking(t)}
@@ -249,6 +264,13 @@ var _ = pbt.Register(pbt.Spec[rtCase]{
 	},
 	Run: runRoundtrip,
 })
+
+func minInt(a, b int) int {
+	if a < b {
+		return a
+	}
+	return b
+}
 
 func bucket(n int) string {
 	switch {
